@@ -45,8 +45,9 @@ def triangle(prog, rep):
     from mirq.canon import Canon
     cn_ = Canon(prog)
     is_gen = lambda st: (st.t["f"].get("resolved") or st.t["f"]).get("path", "").endswith("ScanlineIterator::new")
-    a1 = [(st.bi, [strip_refs(x) for x in st.args], st.t) for st in cn_.sites(nw, "new") if is_gen(st)]
-    a2 = [(st.bi, [strip_refs(x) for x in st.args], st.t) for st in cn_.sites(ds, "new") if is_gen(st)]
+    from mirq.paths import _norm_calls     # `x.into()` is the `From::from(x)` it calls
+    a1 = [(st.bi, [_norm_calls(strip_refs(x)) for x in st.args], st.t) for st in cn_.sites(nw, "new") if is_gen(st)]
+    a2 = [(st.bi, [_norm_calls(strip_refs(x)) for x in st.args], st.t) for st in cn_.sites(ds, "new") if is_gen(st)]
     ok = len(a1) == 1 and len(a2) == 1 and [anon(x) for x in a1[0][1]] == [anon(x) for x in a2[0][1]] and len(a1[0][1]) == 5
     rep.check(ok, "R01.2", "triangle:generator-args", "pixels() and draw() must build ScanlineIterator::new from identical arguments (primitive, stroke_width, StrokeOffset::from(alignment), fill_color.is_some(), styled_bounding_box); pixels: %s draw: %s"
               % ([show(x, maxd=4) for x in (a1[0][1] if a1 else [])], [show(x, maxd=4) for x in (a2[0][1] if a2 else [])]), at=ds.span, fn=ds.path)
